@@ -1224,6 +1224,14 @@ def main():
 
     gen("Sigs.v", sigs)
 
+    def lib():
+        import lib2v
+        text, errs = lib2v.generate(toks("src/lib.rs"), toks("src/macros.rs"))
+        errors.extend("Lib.v: " + e for e in errs)
+        return text
+
+    gen("Lib.v", lib)
+
     coqdir = os.path.dirname(os.path.abspath(outdir))
 
     def hand(name):
